@@ -83,6 +83,30 @@ var corpus = []Case{
 	{Note: "archive title outside", Prepop: "empty", Pushes: []Push{arch("../outdir", reg("../outdir/x"))}},
 	{Note: "manifest layer title outside", Prepop: "empty", Pushes: []Push{{Kind: "restore", Title: "../victim"}}},
 	// later additions
+	// seeded C11-r4-1: store created on a working directory that does not exist yet; the first push creates it and plants links
+	{Note: "working directory absent at the first push, which plants links; then a named blob ending in a planted symlink", Prepop: "absent", Pushes: []Push{
+		arch("pkg", pkgPlant...), blob("pkg/d/f")}},
+	{Note: "working directory absent at first; named blob below a planted directory link, named blob through a dangling link, archive through a link, restore", Prepop: "absent", Pushes: []Push{
+		arch("pkg", dir("pkg/d"), sym("pkg/d/s", ".."), sym("pkg/d/o", "s/../.."), sym("pkg/d/n", "s/../../new")),
+		blob("pkg/d/o/newdir/new"), blob("pkg/d/n"), arch("pkg/d/o/outdir", reg("pkg/d/o/outdir/x")), {Kind: "restore", Title: "pkg/d/o/new6"}}},
+	{Note: "working directory absent at first; a harmless blob creates it, an archive plants, a blob goes through", Prepop: "absent", Pushes: []Push{
+		blob("first.txt"), arch("pkg", pkgPlant...), blob("pkg/d/f"), blob("$WD/pkg/d/s/../../victim")}},
+	// seeded C11-r4-2: a hard-link entry whose name is taken by a planted symlink (os.Link fails with EEXIST)
+	{Note: "hard-link entry named like a planted symlink that really leads outside, source = an earlier regular entry", Prepop: "empty", Pushes: []Push{
+		arch("pkg", dir("pkg/d"), sym("pkg/d/s", ".."), sym("pkg/l", "d/s/../../victim"), reg("pkg/r"), link("pkg/l", "r"))}},
+	{Note: "hard-link entry named like a DANGLING planted symlink", Prepop: "d", Pushes: []Push{
+		arch("pkg", sym("pkg/d/s", ".."), sym("pkg/d/l", "s/../../new"), link("pkg/d/l", "keep"))}},
+	// seeded C11-r5-1: permissions of "restricted" directories applied at end of archive through a link that replaced the directory
+	{Note: "directory entry recorded 0555, replaced while empty by a same-named symlink that really leads to an outside directory", Prepop: "d", Pushes: []Push{
+		arch("pkg", sym("pkg/d/s", ".."), dirm("pkg/d/q", "0555"), sym("pkg/d/q", "s/../../outdir"))}},
+	{Note: "same, everything from the archive, mode 0300", Prepop: "empty", Pushes: []Push{
+		arch("pkg", dir("pkg/"), dir("pkg/a"), sym("pkg/a/l", ".."), dirm("pkg/a/m", "0300"), sym("pkg/a/m", "l/../../outdir"))}},
+	{Note: "same, mode 0000, link to the parent of the working directory", Prepop: "d", Pushes: []Push{
+		arch("pkg", sym("pkg/d/s", ".."), dirm("pkg/d/o", "0000"), sym("pkg/d/o", "s/../.."), reg("pkg/x"))}},
+	{Note: "restrictive directory entry OVER a planted directory link (the directory exists through the link)", Prepop: "d", Pushes: []Push{
+		arch("pkg", sym("pkg/d/s", ".."), sym("pkg/d/o", "s/../../outdir"), dirm("pkg/d/o", "0500"))}},
+	{Note: "restrictive mode on the extraction directory itself and on nested directories, no links", Prepop: "empty", Pushes: []Push{
+		arch("pkg", dirm("pkg/", "0555"), dirm("pkg/n", "0500"), dirm("pkg/n/m", "0000"))}},
 	// seeded C11-r2-2: clean-up after a failed named-blob push removed the (empty) working directory and its empty ancestors
 	{Note: "named blob with a nested title fails while copying (wrong digest) into an empty working directory at the end of a chain of empty directories", Prepop: "empty", Chain: true, Pushes: []Push{
 		{Kind: "blob", Title: "a/b/f.txt", Fail: "digest"}}},
